@@ -395,12 +395,47 @@ class _IfFlipper(ast.NodeTransformer):
 
 class _GuardToElse(ast.NodeTransformer):
     """`if c: ...; return x` followed by the rest of the block  ->  `if c: ...; return x  else: <rest>` (also for raise /
-    continue / break exits), in every block, innermost first."""
+    continue / break exits), in every block, innermost first. Not applied where the rest of the block re-binds a formal
+    parameter or introduces an Optional-typed local: Python does not care, but TorchScript refuses to re-type a variable
+    inside a branch, and the twin has to stay loadable by the library's own scripted tests (checked by running the suite on the
+    transformed tree)."""
+
+    def __init__(self):
+        self.formals = [set()]
+
+    def visit_FunctionDef(self, node):
+        a = node.args
+        self.formals.append({x.arg for x in a.args + a.kwonlyargs + a.posonlyargs})
+        cnt = {}
+        for n in ast.walk(node):
+            if isinstance(n, ast.Name) and isinstance(n.ctx, ast.Store):
+                cnt[n.id] = cnt.get(n.id, 0) + 1
+        self.stores = getattr(self, "stores", []) + [cnt]
+        r = self.generic_visit(node)
+        self.formals.pop()
+        self.stores.pop()
+        return r
+
+    visit_AsyncFunctionDef = visit_FunctionDef
+
+    def _rebinding(self, rest):
+        """does the rest of the block bind a name that is also bound elsewhere in the function (a formal, a loop variable, an
+        earlier assignment)?"""
+        here = {}
+        for st in rest:
+            for n in ast.walk(st):
+                if isinstance(n, ast.Name) and isinstance(n.ctx, ast.Store):
+                    here[n.id] = here.get(n.id, 0) + 1
+                if isinstance(n, ast.AnnAssign):
+                    return True
+        total = self.stores[-1] if getattr(self, "stores", None) else {}
+        return any(nm in self.formals[-1] or total.get(nm, 0) > c for nm, c in here.items())
 
     def _block(self, body):
         out = []
         for i, st in enumerate(body):
-            if isinstance(st, ast.If) and not st.orelse and _always_exits(st.body) and i < len(body) - 1:
+            if isinstance(st, ast.If) and not st.orelse and _always_exits(st.body) and i < len(body) - 1 \
+                    and not self._rebinding(body[i + 1:]):
                 rest = self._block(body[i + 1:])
                 st.orelse = rest
                 out.append(st)
